@@ -17,7 +17,7 @@ EXTENDS Naturals, Sequences, FiniteSets, TLC, Json, SequencesExt, FileSys
 CONSTANTS Shard, NShards
 
 Root == <<"B", "root">>
-Ext == <<"B", "outside", "ext">>
+Ext == <<"B", "root_old", "ext">>   \* outside the code base, in a sibling directory whose NAME has the root's name as a prefix
 D(n) == Append(Root, n)
 LinkCat == [
   l_inc  |-> [lp |-> D("lnk_inc"), tp |-> D("inc")],                       \* dir link beside its target
